@@ -50,8 +50,8 @@ def types_program(types):
     ex.append(Method("exec", "q6", (Arg("funds", "u32"), Arg("msg", "String"), Arg("code_id", "u32"))))
     ss.append(Method("sudo", "q4", (Arg("deps", "u32"), Arg("info", "u32"), Arg("contract", "String"))))
     qs.append(Method("query", "q5", (Arg("contract", "u32"), Arg("querier", "String"))))
-    ms = [Method("instantiate", "inst", (Arg("a", "u32"), Arg("b1", "String"), Arg("r#type", "Inner"))),
-          Method("migrate", "mig", (Arg("x_y", "Option<u32>"), Arg("msg", "Vec<String>")))]
+    ms = [Method("instantiate", "inst", (Arg("a", "u32"), Arg("contract", "String"), Arg("r#type", "Inner"))),
+          Method("migrate", "mig", (Arg("x_y", "Option<u32>"), Arg("msg", "Vec<String>"), Arg("contract", "u32")))]
     return Contract(methods=tuple(ms + ex + idq), interfaces=(iface(0, qs), iface(1, ss)), entry_points="")
 
 
